@@ -79,6 +79,7 @@ func runDynamicReplay(eng *Engine, verif string, v OblResult, seed int) (string,
 			rep = false
 		}
 	}
+	out = shortOutput(out)
 	replayCache[e.Run] = replayOutcome{out, rep, ran}
 	return out, rep, ran
 }
@@ -113,7 +114,7 @@ func runStandins(repoDir, verif, prop, tier string, seed int, known []KnownFindi
 		rec["passed"] = ok
 		records = append(records, rec)
 		if !ok {
-			failures = append(failures, s.Run+": "+out)
+			failures = append(failures, s.Run+": "+shortOutput(out))
 		}
 	}
 	return
@@ -168,12 +169,26 @@ func runReplayTest(repoDir, verif string, e replayEntry, seed int, obligation st
 	cmd.Dir = repoDir
 	cmd.Env = append(os.Environ(), "GOFLAGS=-mod=mod", "GOPROXY=off", fmt.Sprintf("VERIF_SEED=%d", seed), "VERIF_OBLIGATION="+obligation)
 	out, err := cmd.CombinedOutput()
+	// the full output is returned: known findings are matched against every reported failing input
+	// (a truncated last line would count as an unknown failure); callers shorten what they store
 	text := string(out)
-	if len(text) > 8000 {
-		text = text[:8000] + "…"
+	if len(text) > 16<<20 {
+		text = text[:16<<20] + "…"
 	}
 	reproduced := err != nil && strings.Contains(text, "REPLAY-FAIL")
 	return text, reproduced, true
+}
+
+// shortOutput shortens a test output for storage in replay and evidence files (whole lines).
+func shortOutput(text string) string {
+	if len(text) <= 8000 {
+		return text
+	}
+	cut := strings.LastIndex(text[:8000], "\n")
+	if cut < 0 {
+		cut = 8000
+	}
+	return text[:cut] + "\n… (" + fmt.Sprint(len(text)-cut) + " more bytes of output not stored)"
 }
 
 // lookupOracle finds the oracle registered for a function (exact name, or a
@@ -222,7 +237,7 @@ func cmdReplay(args []string) int {
 		return 1
 	}
 	out, reproduced, _ := runReplayTest("/repo", "/verif", e, 0, obl)
-	fmt.Println(out)
+	fmt.Println(shortOutput(out))
 	if reproduced {
 		fmt.Println("reproduced on the real code")
 		return 1
